@@ -5,7 +5,7 @@ from __future__ import annotations
 import math
 import multiprocessing as mp
 
-from harness import common
+from harness import common, gen_targets
 from harness.common import Check, coq_bool
 
 META = {
@@ -224,6 +224,7 @@ def eval_items(ck: Check, prefix: str, items: list[str], per_file: int = 400) ->
 def run(ck: Check) -> None:
     common.assert_repo_imports()
     ck.coq_props()
+    gen_targets.run(ck)          # translator tie: Gallina regenerated from the source + coq/gen/EquivC05.v
     thorough = ck.tier == "thorough"
     rng = ck.rng
 
@@ -431,6 +432,7 @@ def run(ck: Check) -> None:
     ck.notes.append("blocked_eq_presplit: proved on the structural model (props/C05.v, via Masks.v + OptimizerMasks.v); the implementation-vs-implementation runs test it on the real optimizer")
     ck.assumptions += ["torch view/split/detach/storage_offset/stride behave as observed (blocks identified by storage pointer + offset + sizes + strides)",
                        "torch._foreach_add_ on views writes through to the parameter (exercised by the update test on every enumerated case)"]
+    ck.gen_equiv_verdict()
 
 
 def replay(obj) -> bool:
